@@ -60,8 +60,8 @@ pub fn copy_dir(from: &Path, to: &Path) -> std::io::Result<()> {
     Ok(())
 }
 
-/// All read answers of the workload, one line per call.
-pub fn workload(cfg: &TreeCfg, dir: &Path, snaps: &[u64]) -> Result<Vec<String>, String> {
+/// Reads everything; with `with_compaction` a major compaction and a second round of reads follow.
+pub fn workload_ext(cfg: &TreeCfg, dir: &Path, snaps: &[u64], with_compaction: bool) -> Result<Vec<String>, String> {
     let mut d = DriverLite::open(cfg, dir)?;
     let t = d.tree.take().unwrap();
     let mut out = vec![];
@@ -106,7 +106,25 @@ pub fn workload(cfg: &TreeCfg, dir: &Path, snaps: &[u64]) -> Result<Vec<String>,
         }
         out.push(format!("range[k0..]@{s} = {sub:?}"));
     }
+    if with_compaction {
+        // a compaction must not launder damaged data into well-formed tables
+        t.major_compact(u64::MAX, 0).map_err(e)?;
+        for k in &keys {
+            out.push(format!("after-compaction get {k:?} = {:?}", t.get(k, SeqNo::MAX).map_err(e)?.map(|v| v.to_vec())));
+        }
+        let mut fw = vec![];
+        for g in t.iter(SeqNo::MAX, None) {
+            let (k, v) = g.into_inner().map_err(e)?;
+            fw.push((k.to_vec(), v.to_vec()));
+        }
+        out.push(format!("after-compaction scan = {fw:?}"));
+    }
     Ok(out)
+}
+
+/// All read answers of the workload, one line per call.
+pub fn workload(cfg: &TreeCfg, dir: &Path, snaps: &[u64]) -> Result<Vec<String>, String> {
+    workload_ext(cfg, dir, snaps, false)
 }
 
 /// Recovery check of a crash image: open + read everything, then write / flush / compact / read.
@@ -248,7 +266,7 @@ pub fn worker_main() -> i32 {
             if job.kind != "none" {
                 mutate(&scratch.join(&job.file), &job.kind, job.offset, job.mask).map_err(|e| format!("HARNESS mutate: {e}"))?;
             }
-            workload(&job.cfg, &scratch, &job.snaps).map_err(|e| format!("ERR {e}"))
+            workload_ext(&job.cfg, &scratch, &job.snaps, true).map_err(|e| format!("ERR {e}"))
         });
         let _ = std::fs::remove_dir_all(&scratch);
         let out = match res {
@@ -387,6 +405,12 @@ pub fn subjects(tier: &str) -> Vec<Subject> {
         name: "two-l0-tables".into(),
         cfg: big_blocks.clone(),
         ops: vec![Op::MultiPut { ks: vec![0, 1] }, fl.clone(), Op::Snap, Op::Put { k: 0, big: false }, Op::Del { k: 1 }, fl.clone()],
+    });
+    // a run of several tables (compaction output split by a tiny table target)
+    v.push(Subject {
+        name: "multi-table-run".into(),
+        cfg: TreeCfg::small(crate::driver::keys_abc()),
+        ops: vec![Op::MultiPut { ks: vec![0, 1, 2] }, fl.clone(), Op::Major { w: Wm::Zero, target: 1 }],
     });
     // blob tree
     v.push(Subject {
